@@ -97,12 +97,13 @@ fn inv(op: &Op, _ctx: &dyn Context, operands: &mut dyn CoordinateSet) -> usize {
         let sin_lam_p = (phi_pp.cos() * lam_pp.sin()) / phi_p.cos();
         let lam_p = sin_lam_p.asin();
 
-        let C = (K - (FRAC_PI_4 + 0.5 * phi_p).tan().ln()) / c;
+        let C = ((FRAC_PI_4 + 0.5 * phi_p).tan().ln() - K) / c;
 
         let lam = (lam_p / c) + lam_0;
         let mut phi = phi_p;
 
-        let mut prev_phi = phi_p;
+        // NaN, so the first comparison fails and the iteration runs at least once
+        let mut prev_phi = f64::NAN;
         let mut j = MAX_ITERATIONS;
         while j > 0 {
             if (phi - prev_phi).abs() < EPS_10 {
